@@ -157,7 +157,8 @@ func init() {
 	}
 	registry["C11"] = func() Check {
 		return &SeqCheck{Prop: "C11",
-			Ideal: famPlan(3), IdealDeep: famPlan(4), IdealProps: []string{"P_C11"}, Probes: probePlanIDs,
+			Ideal:     with(famPlan(3), func(m *SeqModel) { m.Extras = append(m.Extras, "trailing") }),
+			IdealDeep: famPlan(4), IdealProps: []string{"P_C11"}, Probes: probePlanIDs,
 			GenQuick:    with(famPlan(2), func(m *SeqModel) { m.Extras = append(m.Extras, "trailing") }),
 			GenThorough: with(famPlan(4), func(m *SeqModel) { m.Extras = append(m.Extras, "trailing") }), SampleQuick: 100,
 			Sim: famPlan(8), SimNumQuick: 60, SimNumThorough: 1000}
